@@ -99,6 +99,37 @@ var c07Recipes = []c07Recipe{
 				k(jen.Id("A")): jen.Id("U").Values(inner), k(jen.Id("B")): jen.Qual("c/f", "W"), k(jen.Id("C")): jen.Qual("a/g", "W")})
 		})
 	}},
+	{"dict-of-dicts-quals-only-nested", func(k func(jen.Code) jen.Code) jh.Outcome {
+		return c07File(false, func(f *jen.File) {
+			row := func(p string) jen.Code {
+				return jen.Values(jen.Dict{k(jen.Id("A")): jen.Qual(p, "V"), k(jen.Id("B")): jen.Lit(1)})
+			}
+			f.Var().Id("x").Op("=").Map(jen.String()).Id("T").Values(jen.Dict{
+				k(jen.Lit("r1")): row("a/f"), k(jen.Lit("r2")): row("b/f"), k(jen.Lit("r3")): row("c/f"), k(jen.Lit("r4")): row("d/f")})
+		})
+	}},
+	{"dict-with-dict-keys", func(k func(jen.Code) jen.Code) jh.Outcome {
+		return c07File(false, func(f *jen.File) {
+			key := func(p, q string) jen.Code {
+				return k(jen.Id("K").Values(jen.Dict{k(jen.Id("A")): jen.Qual(p, "P"), k(jen.Id("B")): jen.Qual(q, "Q")}))
+			}
+			f.Var().Id("x").Op("=").Map(jen.Id("K")).String().Values(jen.Dict{
+				key("a/f", "b/f"): jen.Lit("one"), k(jen.Id("K").Values(jen.Dict{k(jen.Id("A")): jen.Id("f0"), k(jen.Id("B")): jen.Qual("b/f", "R")})): jen.Lit("two")})
+		})
+	}},
+	{"trailing-slash-path-1", func(k func(jen.Code) jen.Code) jh.Outcome {
+		return c07File(false, func(f *jen.File) { f.Var().Id("_").Op("=").List(jen.Qual("x/first/", "A"), jen.Qual("x/9", "B")) })
+	}},
+	{"trailing-slash-path-2", func(k func(jen.Code) jen.Code) jh.Outcome {
+		return c07File(false, func(f *jen.File) { f.Var().Id("_").Op("=").List(jen.Qual("y/second/", "A"), jen.Qual("y/7", "B")) })
+	}},
+	{"dict-equal-keys-long-values", func(k func(jen.Code) jen.Code) jh.Outcome {
+		return c07File(false, func(f *jen.File) {
+			long := strings.Repeat("0123456789", 60)
+			f.Var().Id("x").Op("=").Map(jen.Int()).String().Values(jen.Dict{
+				k(jen.Id("next").Call()): jen.Lit(long + "a"), k(jen.Id("next").Call()): jen.Lit(long + "b"), k(jen.Id("first").Call()): jen.Lit("c")})
+		})
+	}},
 	{"dict-fragment-statement-render", func(k func(jen.Code) jen.Code) jh.Outcome {
 		return jh.Catch(func() (string, error) {
 			s := jen.Id("T").Values(jen.Dict{k(jen.Qual("a/f", "X")): jen.Lit(1), k(jen.Qual("b/f", "X")): jen.Lit(2), k(jen.Qual("c/f", "X")): jen.Lit(3)})
@@ -351,36 +382,38 @@ func runC07(r *ev.Recorder) {
 			results[i] = c07Explore(rc, dev, r.Expired)
 		}
 	} else {
-		var wg sync.WaitGroup
-		sem := make(chan struct{}, 16)
-		for i, rc := range c07Recipes {
-			i, rc := i, rc
-			wg.Add(1)
-			go func() {
-				defer wg.Done()
-				sem <- struct{}{}
-				defer func() { <-sem }()
-				out, err := exec.Command(self, "c07shard", rc.name, fmt.Sprint(dev)).Output()
-				if err != nil || json.Unmarshal(out, &results[i]) != nil {
-					fmt.Fprintf(os.Stderr, "C07: shard %s failed: %v\n%s\n", rc.name, err, out)
-					os.Exit(2)
-				}
-				for k := 0; k < 2; k++ {
-					h, err := exec.Command(self, "native", rc.name).Output()
-					if err != nil {
-						fmt.Fprintln(os.Stderr, "C07: native child failed:", err)
+		r.External(func() {
+			var wg sync.WaitGroup
+			sem := make(chan struct{}, 16)
+			for i, rc := range c07Recipes {
+				i, rc := i, rc
+				wg.Add(1)
+				go func() {
+					defer wg.Done()
+					sem <- struct{}{}
+					defer func() { <-sem }()
+					out, err := exec.Command(self, "c07shard", rc.name, fmt.Sprint(dev)).Output()
+					if err != nil || json.Unmarshal(out, &results[i]) != nil {
+						fmt.Fprintf(os.Stderr, "C07: shard %s failed: %v\n%s\n", rc.name, err, out)
 						os.Exit(2)
 					}
-					hs := strings.TrimSpace(string(h))
-					results[i].Executions++
-					if _, ok := results[i].Outcomes[hs]; !ok {
-						results[i].Outcomes[hs] = c07Case{Recipe: rc.name, Policy: "native-process"}
-						results[i].Outputs[hs] = "(output of a fresh process, hash " + hs + ")"
+					for k := 0; k < 2; k++ {
+						h, err := exec.Command(self, "native", rc.name).Output()
+						if err != nil {
+							fmt.Fprintln(os.Stderr, "C07: native child failed:", err)
+							os.Exit(2)
+						}
+						hs := strings.TrimSpace(string(h))
+						results[i].Executions++
+						if _, ok := results[i].Outcomes[hs]; !ok {
+							results[i].Outcomes[hs] = c07Case{Recipe: rc.name, Policy: "native-process"}
+							results[i].Outputs[hs] = "(output of a fresh process, hash " + hs + ")"
+						}
 					}
-				}
-			}()
-		}
-		wg.Wait()
+				}()
+			}
+			wg.Wait()
+		})
 	}
 	// history independence within this process: after a prelude of failing and succeeding renders
 	// (Files and fragments that use the same base names), every recipe must still render its
